@@ -67,6 +67,18 @@ func (r *Rec) Skip(reason string) {
 	}
 }
 
+// Merge copies the outcome of o into r.
+func (r *Rec) Merge(o *Rec) {
+	r.nt = r.nt || o.nt
+	r.classes = append(r.classes, o.classes...)
+	if r.viol == "" {
+		r.viol = o.viol
+	}
+	if r.skip == "" {
+		r.skip = o.skip
+	}
+}
+
 func (r *Rec) Failed() bool  { return r.viol != "" }
 func (r *Rec) Msg() string   { return r.viol }
 func (r *Rec) Skipped() bool { return r.skip != "" }
@@ -598,44 +610,57 @@ func Stacks() string {
 }
 
 // Deadlocked inspects two goroutine dumps taken a moment apart and reports
-// whether the library is stuck (some goroutine sits in a bgzf frame waiting on
-// a channel/lock/waitgroup and nothing of the library is running), as opposed to slow.
+// whether the library is stuck, as opposed to slow: in both dumps at least one
+// goroutine whose innermost non-runtime frame lies in a package matching
+// pkgFrag is parked on a channel/lock/waitgroup, and no goroutine that has a
+// pkgFrag frame anywhere on its stack is doing anything else (running,
+// compressing, inside a harness I/O shim, sleeping).
 func Deadlocked(pkgFrag string) (bool, string) {
 	a := Stacks()
 	time.Sleep(300 * time.Millisecond)
 	b := Stacks()
-	stuck := func(dump string) (bool, bool, string) {
-		anyRunning, anyWaiting := false, false
-		var where string
-		for _, g := range strings.Split(dump, "\n\n") {
-			if !strings.Contains(g, pkgFrag) {
-				continue
-			}
-			hdr := g
-			if i := strings.IndexByte(g, '\n'); i >= 0 {
-				hdr = g[:i]
-			}
-			switch {
-			case strings.Contains(hdr, "chan receive"), strings.Contains(hdr, "chan send"),
-				strings.Contains(hdr, "select"), strings.Contains(hdr, "semacquire"),
-				strings.Contains(hdr, "sync.Mutex"), strings.Contains(hdr, "sync.RWMutex"),
-				strings.Contains(hdr, "sync.WaitGroup"), strings.Contains(hdr, "sync.Cond"):
-				anyWaiting = true
-				if where == "" {
-					where = trunc(g, 1200)
-				}
-			default:
-				anyRunning = true
-			}
-		}
-		return anyWaiting, anyRunning, where
-	}
-	w1, r1, where := stuck(a)
-	w2, r2, _ := stuck(b)
+	w1, r1, where := stuckIn(a, pkgFrag)
+	w2, r2, _ := stuckIn(b, pkgFrag)
 	if w1 && w2 && !r1 && !r2 {
 		return true, where
 	}
 	return false, where
+}
+
+func stuckIn(dump, pkgFrag string) (anyWaiting, anyRunning bool, where string) {
+	for _, g := range strings.Split(dump, "\n\n") {
+		if !strings.Contains(g, pkgFrag) {
+			continue
+		}
+		lines := strings.Split(g, "\n")
+		hdr := lines[0]
+		top := ""
+		for _, l := range lines[1:] {
+			if strings.HasPrefix(l, "\t") || strings.HasPrefix(l, "created by") {
+				continue
+			}
+			if strings.HasPrefix(l, "runtime.") || strings.HasPrefix(l, "sync.") || strings.HasPrefix(l, "internal/") || strings.HasPrefix(l, "time.") || strings.HasPrefix(l, "sync/atomic.") {
+				continue
+			}
+			top = l
+			break
+		}
+		waitState := false
+		for _, st := range []string{"chan receive", "chan send", "select", "semacquire", "sync.Mutex", "sync.RWMutex", "sync.WaitGroup", "sync.Cond"} {
+			if strings.Contains(hdr, st) {
+				waitState = true
+			}
+		}
+		if waitState && strings.Contains(top, pkgFrag) {
+			anyWaiting = true
+			if where == "" {
+				where = trunc(g, 1500)
+			}
+		} else {
+			anyRunning = true
+		}
+	}
+	return
 }
 
 // MarkExhaustive records that this sub-check enumerated its finite space completely.
